@@ -32,9 +32,9 @@ ASSUMPTIONS = [
     'no two attributes of one element differ only by ASCII case',
 ]
 
-BASE = ['a', 'p', 'div', 'span', 'x', 'svg']
+BASE = ['a', 'p', 'div', 'span', 'x', 'svg', 'item']
 NONASCII = ['xé', 'xÉ', 'xǆ', 'xǅ', 'xK', 'xk']        # é/É, dž digraphs, KELVIN SIGN vs k
-ATTRN = ['title', 'data-x', 'type', 'data-é', 'data-É', 'dataK', 'lang', 'viewBox', 'preserveAspectRatio']
+ATTRN = ['title', 'data-x', 'type', 'data-é', 'data-É', 'dataK', 'lang', 'viewBox', 'preserveAspectRatio', 'kind']
 TYPEV = ['text', 'TEXT', 'Text', 'radio', 'x']
 VALS = ['x', 'X', 'xY', 'xy', 'XY', 'é', 'x y', '']
 HTML_ONLY = [':any-link', ':link', ':checked', ':default', ':disabled', ':enabled', ':indeterminate', ':optional', ':required',
@@ -86,6 +86,17 @@ def gen_tree(rng):
 
 
 def materialise(root, how):
+    if how.endswith('+graft'):
+        base = how[:-6]
+        inner = {'xhtml': 'xml'}.get(base, base)
+        if base == 'xhtml':
+            html = E('html', {}, [E('head'), E('body', {}, [root])], nsdecl={'': NS_XHTML})
+            return trees.materialise([html], 'xml+graft')
+        if base in ('xml', 'api-xml'):
+            return trees.materialise([E('root', {}, [root])], base + '+graft')
+        if base == 'api':
+            return trees.materialise([E('html', {}, [E('body', {}, [root])])], 'api+graft')
+        return trees.materialise([E('html', {}, [E('head'), E('body', {}, [root])])], inner + '+graft')
     if how == 'xhtml':
         html = E('html', {}, [E('head'), E('body', {}, [root])], nsdecl={'': NS_XHTML})
         return trees.materialise([html], 'xml')
@@ -140,14 +151,14 @@ def run_unit(u):
     for it in range(u['n']):
         root = gen_tree(rng)
         asts = [sels.gen_list(rng, rng.choice([0, 1, 1, 2]), cfg) for _ in range(5)]
-        for how in HOWS:
+        for how in HOWS + [rng.choice(HOWS) + '+graft']:
             try:
-                case = Case(root, how)
+                case = Case(root, how, ('doc',) if not how.endswith('+graft') or rng.random() < .3 else ('el', rng.randrange(1000)))
             except Exception:  # noqa: BLE001 - a parser rejecting the markup (e.g. an XML name) is not the subject
                 bump('materialise_failed:' + how)
                 continue
             for ast in asts:
-                st, info = cases.compare_select(sv, case, ast, cases.respelled(rng, ast, .25))
+                st, info = cases.compare_select(sv, case, ast, cases.respelled(rng, ast, .25), match_law=how.endswith('+graft'))
                 res['evals'] += 1
                 bump('how:' + how)
                 if st == 'unspec':
